@@ -63,14 +63,14 @@ theorem filterCore_eq_rfc (r : Str) (rs : List Str) (s : Str) (ss : List Str)
         !(r :: rs == ["*".toStr] && s :: ss == Spec.emptyText)) := by
   rw [star_toStr]; exact filterCore_eq r rs s ss hwf
 
-/-- Deviation (b) is real: the bare algorithm accepts `*` against the empty tag text. -/
+/-- Deviation (a) is real: the bare algorithm accepts `*` against the empty tag text. -/
 theorem rfc_star_matches_empty_text :
     Spec.extFilterAlg ["*".toStr] Spec.emptyText = true ∧
     Lang.filterCore ["*".toStr] Spec.emptyText = false := by
   refine ⟨by decide, ?_⟩
   rw [emptyText, filterCore_eq_rfc _ _ _ _ (by decide)]; decide
 
-/-- Deviation (a) is real: the bare algorithm lets the empty range match every tag whose first
+/-- Deviation (b) is real: the bare algorithm lets the empty range match every tag whose first
     subtag is empty (for instance the tag text `-foo`). -/
 theorem rfc_empty_range (s : Str) (ss : List Str) :
     Spec.extFilterAlg Spec.emptyText (s :: ss) = (s == []) := by
@@ -194,6 +194,39 @@ theorem hw_of_commutes (w : Str → Str) (h : ∀ s, w (lower s) = lower (w s)) 
     ∀ s, lower (w s) = lower (w (lower s)) := by
   intro s; rw [h, lower_idem]
 
+/-- Case-insensitivity from the subtag-level behaviour of the strip alone: any `w` that acts as
+    `stripWild` on subtags gives a case-insensitive filter. -/
+theorem filter_case_insensitive_of_strip (w : Str → Str)
+    (hw : ∀ s, splitOn 45 (w s) = Spec.stripWild (splitOn 45 s))
+    (r r' t t' : Str) (hr : lower r = lower r') (ht : lower t = lower t') :
+    Lang.extendedFilter w r t = Lang.extendedFilter w r' t' := by
+  have key : ∀ a b, Lang.extendedFilter w a b =
+      Lang.filterCore (Spec.stripWild (splitOn 45 (lower a))) (splitOn 45 (lower b)) := by
+    intro a b
+    rw [extendedFilter_lowered, hw, ← stripWild_map_lower, ← splitOn_lower, ← splitOn_lower]
+  rw [key, key, hr, ht]
+
+/-! ### The text-level strip -/
+
+/-- The hand-written text-level reading of `RE_WILD_STRIP.sub('-', RE_WILD_TAIL.sub('', s))`
+    (with `$` = end of text) is `stripWild` on the subtags, for every text `s`. -/
+theorem wildStripText_subtags (s : Str) :
+    splitOn 45 (wildStripText s) = Spec.stripWild (splitOn 45 s) :=
+  splitOn_wildStripText s
+
+/-- End to end with the text-level strip: every range text whose subtags after the first are
+    non-empty, every tag text. -/
+theorem extendedFilter_wildStripText_eq_c13 (range tag : Str)
+    (hne : ∀ x ∈ (splitOn 45 range).tail, x ≠ []) :
+    Lang.extendedFilter wildStripText range tag =
+      Spec.c13Match ((splitOn 45 range).map lower) ((splitOn 45 tag).map lower) :=
+  extendedFilter_eq_c13Match wildStripText range tag (splitOn_wildStripText range) hne
+
+theorem wildStripText_case_insensitive (r r' t t' : Str)
+    (hr : lower r = lower r') (ht : lower t = lower t') :
+    Lang.extendedFilter wildStripText r t = Lang.extendedFilter wildStripText r' t' :=
+  filter_case_insensitive_of_strip wildStripText splitOn_wildStripText r r' t t' hr ht
+
 /-! ### Non-vacuity -/
 
 section Examples
@@ -253,6 +286,35 @@ example : Lang.filterCore (S ["a", "", "b"]) (S ["a", "", "b"]) = false := by
   simp [S, Lang.filterCore, String.toStr, filterLoop_cons_cons]
 -- case-insensitivity hypothesis is satisfiable
 example : ∀ s, lower (id s) = lower (id (lower s)) := fun s => (lower_idem s).symm
+-- the text-level strip against the regex model (same expression as the driver's `wildStripImpl`)
+example : wildStripRx "de-*-*-DE-*-*".toStr = "de-DE".toStr := by decide
+example : wildStripText "de-*-*-DE-*-*".toStr = "de-DE".toStr := by decide
+example : wildStripRx "*-*-de".toStr = "*-de".toStr := by decide
+example : wildStripRx "*-*".toStr = "*".toStr := by decide
+set_option maxRecDepth 100000 in
+example : ∀ s ∈ allStrings [45, 42, 97] 4, wildStripText s = wildStripRx s := by decide
+set_option maxRecDepth 100000 in
+example : ∀ s ∈ allStrings [45, 42] 6, wildStripText s = wildStripRx s := by decide
+-- `$` also matches before a final newline: on `de-*\n` the regexes do NOT act as `stripWild`
+example : wildStripRx ("de-*".toStr ++ [10]) = "de".toStr ++ [10] := by decide
+example : splitOn 45 (wildStripRx ("de-*".toStr ++ [10])) ≠
+    stripWild (splitOn 45 ("de-*".toStr ++ [10])) := by decide
+example : wildStripText ("de-*".toStr ++ [10]) = "de-*".toStr ++ [10] := by decide
+-- end to end on texts, through `extendedFilter_wildStripText_eq_c13`
+example : Lang.extendedFilter wildStripText "de-*-DE".toStr "de-Latn-DE".toStr = true := by
+  rw [extendedFilter_wildStripText_eq_c13 _ _ (by decide)]; decide
+example : Lang.extendedFilter wildStripText "DE-*-de".toStr "de-x-DE".toStr = false := by
+  rw [extendedFilter_wildStripText_eq_c13 _ _ (by decide)]; decide
+example : Lang.extendedFilter wildStripText "de-DE".toStr "de-Deva-DE".toStr = true := by
+  rw [extendedFilter_wildStripText_eq_c13 _ _ (by decide)]; decide
+example : Lang.extendedFilter wildStripText "*".toStr "".toStr = false := by
+  rw [extendedFilter_wildStripText_eq_c13 _ _ (by decide)]; decide
+example : Lang.extendedFilter wildStripText "*-*".toStr "fr".toStr = true := by
+  rw [extendedFilter_wildStripText_eq_c13 _ _ (by decide)]; decide
+example : Lang.extendedFilter wildStripText "".toStr "".toStr = true := by
+  rw [extendedFilter_wildStripText_eq_c13 _ _ (by decide)]; decide
+example : Lang.extendedFilter wildStripText "".toStr "-foo".toStr = false := by
+  rw [extendedFilter_wildStripText_eq_c13 _ _ (by decide)]; decide
 end Examples
 
 end C13
